@@ -165,12 +165,13 @@ class Route(Generic[Interface]):
         self.path_format: str
         self.path_convertors: Dict[str, Convertor]
         self.path_format, self.path_convertors = compile_path(path)
+        # literal text of the route is matched verbatim, not as a regular expression
         self.re_pattern = re.compile(
-            self.path_format.format_map(
-                {
-                    name: f"(?P<{name}>{convertor.regex})"
-                    for name, convertor in self.path_convertors.items()
-                }
+            "".join(
+                f"(?P<{part}>{self.path_convertors[part].regex})"
+                if index % 2 == 1 and part in self.path_convertors
+                else re.escape(part if index % 2 == 0 else "{%s}" % part)
+                for index, part in enumerate(re.split(r"{(\w+)}", self.path_format))
             )
         )
         self.endpoint: Interface = endpoint
